@@ -492,7 +492,8 @@ def oracle_selftest(scratch, package, small=True, test_path="verif::replay::orac
 # evidence
 # ---------------------------------------------------------------------------------------------
 def write_evidence(pid, tier, seed, coverage, assumptions, wall_s, violations, level="model_checking"):
-    os.makedirs(VERIF + "/evidence", exist_ok=True)
+    evdir = os.environ.get("VERIF_EVIDENCE_DIR", VERIF + "/evidence")
+    os.makedirs(evdir, exist_ok=True)
     ev = {
         "property_id": pid,
         "tier": tier,
@@ -503,10 +504,10 @@ def write_evidence(pid, tier, seed, coverage, assumptions, wall_s, violations, l
         "wall_s": round(wall_s, 1),
         "violations": violations,
     }
-    tmp = VERIF + "/evidence/%s.json.tmp" % pid
+    tmp = evdir + "/%s.json.tmp" % pid
     with open(tmp, "w") as f:
         json.dump(ev, f, indent=1)
-    os.replace(tmp, VERIF + "/evidence/%s.json" % pid)
+    os.replace(tmp, evdir + "/%s.json" % pid)
 
 
 def load_known_findings():
